@@ -35,6 +35,7 @@ func parseRat(s string) float64 {
 type block struct {
 	id    string
 	lines [][]string
+	raw   []string
 }
 
 func readCases(path string) []block {
@@ -62,6 +63,7 @@ func readCases(path string) []block {
 		default:
 			if cur != nil {
 				cur.lines = append(cur.lines, fs)
+				cur.raw = append(cur.raw, line)
 			}
 		}
 	}
@@ -79,6 +81,10 @@ func main() {
 	case "timedep":
 		for _, b := range readCases(path) {
 			runTimeDep(b)
+		}
+	case "engine":
+		for _, b := range readCases(path) {
+			runEngine(b)
 		}
 	default:
 		if f, ok := commands[cmd]; ok {
